@@ -11,15 +11,19 @@ namespace Thanos.DedupFilter
 structure Meta where
   id : Nat
   group : Nat
+  level : Nat          -- Compaction.Level
   sources : List Nat
   deriving DecidableEq, Repr
 
 /-- `contains(s1, s2)`: every element of `s2` occurs in `s1` -/
 def contains (s1 s2 : List Nat) : Bool := s2.all fun a => s1.contains a
 
-/-- the `sort.Slice` comparator of `filterGroup`: more sources first, ties by ULID ascending -/
+/-- the `sort.Slice` comparator of `filterGroup`: more sources first, then the higher
+    compaction level (repair af5d71aa9 of the compact family: a single-block compaction result has
+    the sources of its parent and must win the tie), then ULID ascending -/
 def less (a b : Meta) : Bool :=
-  if a.sources.length = b.sources.length then decide (a.id < b.id)
+  if a.sources.length = b.sources.length then
+    (if a.level ≠ b.level then decide (a.level > b.level) else decide (a.id < b.id))
   else decide (a.sources.length > b.sources.length)
 
 def insertMeta (a : Meta) : List Meta → List Meta
